@@ -119,7 +119,11 @@ def i_IN(i, fmap):
 def i_OUT(i, fmap):
     port, r = i.operands
     port = port.value
-    fmap[mmregs[port]] = fmap(r)
+    dst = mmregs.get(port, None)
+    if dst is None:
+        # I/O location without a named register: data memory byte 0x20+port
+        dst = mem(cst(0x20 + port, 16), 8)
+    fmap[dst] = fmap(r)
 
 
 # arithmetic & logic instructions:
